@@ -247,6 +247,7 @@ type resp struct {
 	Ack    string  `json:"ack,omitempty"`
 	Seen   int     `json:"seen,omitempty"`
 	Total  int     `json:"total,omitempty"`
+	Open   int     `json:"open,omitempty"`
 	Fired  bool    `json:"fired,omitempty"`
 	Events []event `json:"events,omitempty"`
 	Snap   *dbSnap `json:"snap,omitempty"`
@@ -331,7 +332,7 @@ func childMain() {
 			out.Encode(r)
 		case "seen":
 			rec.mu.Lock()
-			r := resp{OK: true, Seen: rec.seen, Fired: rec.fired, Total: rec.total}
+			r := resp{OK: true, Seen: rec.seen, Fired: rec.fired, Total: rec.total, Open: rec.open}
 			rec.mu.Unlock()
 			out.Encode(r)
 		case "trace_start":
